@@ -9,7 +9,10 @@ package props
 // readable and there" is emitted as a Gallina case. Check/C13Check.v decides: the spec (outcome is Ok or
 // Err, store preserved) for every request, and for the modelled request kinds (URL path parsing, JSON
 // reader shape dispatch, path-expression matching, XPath lexing) that the executable model of Req/*.v
-// predicts the observed outcome class.
+// predicts the observed outcome class. Find is also started at selections below the root (stream c13Rel: leading
+// "../" steps, a relative path, a "?query" of every short length): the model find_rel walks the chain of parent
+// selections and cuts the query after the "../" steps, and the worker makes the same Find without the query so that
+// Check/C13Check.v can hold "a query naming no known parameter does not change what Find returns".
 
 import (
 	"bufio"
@@ -157,6 +160,12 @@ func c13ModelInput(w *c13World, rq *c13Req) (term string, modelled bool) {
 	wname := fmt.Sprintf("c13w%d", w.Idx)
 	switch rq.Kind {
 	case "path":
+		if rq.At != "" {
+			if len(rq.Text) < 600 {
+				return emit.App("MRel", wname, c13Idents(rq.AtNames), emit.Bool(rq.AtRow), emit.Str(rq.Text)), true
+			}
+			return "MNone", false
+		}
 		if !strings.Contains(rq.Text, "?") && len(rq.Text) < 600 {
 			return emit.App("MPath", wname, emit.Str(rq.Text)), true
 		}
@@ -409,6 +418,10 @@ func C13(ctx *core.Ctx) error {
 		if rq.Kind == "match" {
 			desc["selector"], desc["base"], desc["candidate"], desc["matched"] = rq.Sel, rq.Base, rq.Cand, rs.Match
 		}
+		if rq.Kind == "path" && rq.At != "" {
+			desc["find_without_query"] = rs.NoQuery
+			desc["same_as_without_query"] = map[int]string{0: "n/a", 1: "no", 2: "yes"}[rs.Match]
+		}
 		if rq.Kind == "set" {
 			desc["value"] = c13SetPool()[rq.Val].Name
 		}
@@ -435,7 +448,7 @@ func C13(ctx *core.Ctx) error {
 		}
 	}
 	ctx.Extra["worlds"] = len(worlds)
-	ctx.Extra["modelled_kinds"] = "path (parseUrlPath), json (reader shape dispatch, upsert at the root), match (PathMatchExpression.match), xparse (xpath lexer + grammar)"
+	ctx.Extra["modelled_kinds"] = "path (parseUrlPath; at sub-selections the ../ loop and the query cut), json (reader shape dispatch, upsert at the root), match (PathMatchExpression.match), xparse (xpath lexer + grammar)"
 	ctx.Extra["search_only_kinds"] = "xml, query, xpath evaluation, set, json through insert/update/replace or rejected by encoding/json"
 	return nil
 }
